@@ -1,6 +1,7 @@
 import StimModel.Driver.Wire
 import StimModel.Model.TSim
 import StimModel.Model.PauliProp
+import StimModel.Model.Tableau
 /-! Line-protocol dispatcher: one request line in, one answer line out. -/
 namespace Stim.Driver
 open Stim Stim.Wire
@@ -82,11 +83,111 @@ def pauliCmd (toks : List String) : String :=
     | _ => "bad-request"
   | _ => "bad-request"
 
+/-- tableau on the wire: `n` followed by 2n row strings (xs then zs) -/
+def parseTab (toks : List String) : Option (Tab × List String) :=
+  match toks with
+  | nS :: rest =>
+    match nS.toNat? with
+    | none => none
+    | some n =>
+      if rest.length < 2 * n then none else
+      match ((rest.take n).mapM PS.ofStr), (((rest.drop n).take n).mapM PS.ofStr) with
+      | some xs, some zs => some (⟨n, xs, zs⟩, rest.drop (2 * n))
+      | _, _ => none
+  | [] => none
+
+def tabStr (T : Tab) : String :=
+  String.intercalate " " (toString T.n :: (T.xs.map PS.str ++ T.zs.map PS.str))
+
+def tabCmd (toks : List String) : String :=
+  match toks with
+  | "apply" :: rest =>
+    match parseTab rest with
+    | some (T, [p]) => match PS.ofStr p with | some x => (T.map x).str | none => "bad-request"
+    | _ => "bad-request"
+  | "then" :: rest =>
+    match parseTab rest with
+    | some (A, rest1) => match parseTab rest1 with
+      | some (B, []) => tabStr (A.then_ B)
+      | _ => "bad-request"
+    | _ => "bad-request"
+  | "isinv" :: rest =>
+    match parseTab rest with
+    | some (A, rest1) => match parseTab rest1 with
+      | some (B, []) => if A.isInverseOf B then "1" else "0"
+      | _ => "bad-request"
+    | _ => "bad-request"
+  | "pow" :: k :: rest =>
+    match parseTab rest, k.toNat? with
+    | some (A, []), some kk => tabStr (A.pow kk)
+    | _, _ => "bad-request"
+  | "sum" :: rest =>
+    match parseTab rest with
+    | some (A, rest1) => match parseTab rest1 with
+      | some (B, []) => tabStr (A.sum B)
+      | _ => "bad-request"
+    | _ => "bad-request"
+  | "valid" :: rest =>
+    match parseTab rest with
+    | some (A, []) => if A.valid then "1" else "0"
+    | _ => "bad-request"
+  | "scatter" :: which :: rest =>
+    match parseTab rest with
+    | some (A, rest1) => match parseTab rest1 with
+      | some (G, ts) =>
+        match ts.mapM String.toNat? with
+        | some tl => tabStr (if which == "append" then A.scatterAppend G tl else A.scatterPrepend G tl)
+        | none => "bad-request"
+      | _ => "bad-request"
+    | _ => "bad-request"
+  | "circuit" :: nS :: rest =>
+    match parseCircuit rest, nS.toNat? with
+    | some (c, []), some n => match circuitTableau c n with | some T => tabStr T | none => "not-unitary"
+    | _, _ => "bad-request"
+  | "stabs" :: ar :: au :: kS :: rest =>
+    -- `tab stabs <allowRedundant> <allowUnder> <k> <s1..sk> (reject | <tableau>)` : oracle verdict on stabilizers_to_tableau
+    match kS.toNat? with
+    | none => "bad-request"
+    | some k =>
+      match (rest.take k).mapM PS.ofStr with
+      | none => "bad-request"
+      | some stabs =>
+        let n := (stabs.head?.map (·.ps.length)).getD 0
+        let v := analyseStabs n stabs (ar == "1") (au == "1")
+        match rest.drop k with
+        | ["reject"] => (match v with | .ok _ => "should-accept" | _ => "ok")
+        | tabToks =>
+          match parseTab tabToks, v with
+          | some (T, []), .ok indep =>
+            if !T.valid then "invalid-tableau"
+            else if T.n != n then "wrong-size"
+            else if (indep.zipIdx).all (fun (s, i) => T.zs[i]? == some s) then "ok" else "z-outputs-differ"
+          | some _, .anticommute => "should-reject-anticommuting"
+          | some _, .contradiction => "should-reject-contradiction"
+          | some _, .redundant => "should-reject-redundant"
+          | some _, .under => "should-reject-underconstrained"
+          | _, _ => "bad-request"
+  | "prepares" :: rest =>
+    -- does the (possibly measuring) circuit prepare the state stabilised by the Z outputs of the tableau, on every branch we try?
+    match parseCircuit rest with
+    | some (c, rest1) => match parseTab rest1 with
+      | some (T, []) =>
+        let chk (b : Bool) : Bool :=
+          let out := Run.ops { st := TState.init (max c.numQubits T.n) } (.bias b) c.unroll
+          out.err.isNone && T.zs.all fun s =>
+            let s' : PS := ⟨s.ph, s.ps ++ List.replicate (out.st.n - s.ps.length) P1.I⟩
+            zval (out.st.map s') == some false
+        if chk false && chk true then "1" else "0"
+      | _ => "bad-request"
+    | _ => "bad-request"
+  | _ => "bad-request"
+
 def answer (toks : List String) : String :=
   match toks with
   | "tsim" :: "check" :: rest => tsimCheck rest
   | "tsim" :: "ref" :: rest => tsimRef rest
   | "pauli" :: rest => pauliCmd rest
+  | "tab" :: rest => tabCmd rest
   | "gate" :: "act" :: rest => gateAct rest
   | "gate" :: "actu" :: rest => gateActU rest
   | "gate" :: "mismatch" :: [g] =>
